@@ -274,7 +274,8 @@ class DynmatToForceConstants:
         if commensurate_points is None:
             self._commensurate_points = get_commensurate_points(supercell_matrix)
         else:
-            self._commensurate_points = commensurate_points
+            # array_like of any memory layout -> C-contiguous double (setter)
+            self.commensurate_points = commensurate_points
 
         svecs, multi = self._pcell.get_smallest_vectors()
         if self._pcell.store_dense_svecs:
